@@ -17,6 +17,7 @@ def run(ctx):
     gram.g7_literal_mandatory(ctx, g, P)
     gram.g8_no_backslash_first(ctx, g, P)
     gram.g16_strings_atomic(ctx, g, P)
+    gram.g17_string_escapes(ctx, g, P)
     gram.g12_scan_strings(ctx, g, P, require_string=False)
     finder.rule_macro_filter(ctx, facts, "C11-R1")
     finder.rule_filter_before_entry(ctx, facts, "C11-R1")
